@@ -731,7 +731,6 @@ func c17Chain(c *Ctx) {
 	}
 }
 
-
 // copyFreshObligation: PlError.Copy must build the PosChain of the copy in fresh storage
 // (append(<fresh slice>, e.PosChain...) or make+copy); a struct copy shares the backing array, so
 // ChainAppend on one copy overwrites the call site recorded in another.
